@@ -279,7 +279,9 @@ def in_forked_child(fn, timeout=600):
             try:
                 payload = pickle.dumps(('ok', fn()))
             except BaseException as e:   # noqa
-                payload = pickle.dumps(('exc', f'{type(e).__name__}: {e}'))
+                last = traceback.extract_tb(e.__traceback__)[-1].filename if e.__traceback__ else ''
+                mine = os.path.abspath(last).startswith(VERIF + os.sep) and '/site-packages/' not in last
+                payload = pickle.dumps(('harness' if mine else 'exc', f'{type(e).__name__}: {e}'))
             with os.fdopen(w, 'wb') as f:
                 f.write(payload)
         except BaseException:            # noqa
@@ -293,6 +295,9 @@ def in_forked_child(fn, timeout=600):
     if not data:
         raise RuntimeError('forked child produced no result')
     kind, val = pickle.loads(data)
+    if kind == 'harness':       # raised by a line of the harness itself, not by the code under test
+        from .core import HarnessError
+        raise HarnessError('in forked child: ' + val)
     if kind == 'exc':
         raise RuntimeError(val)
     return val
